@@ -2,6 +2,7 @@ package props
 
 import (
 	"fmt"
+	"math"
 	"os"
 	"runtime"
 	"runtime/debug"
@@ -84,6 +85,13 @@ type SMLoad struct {
 	// FromSelf > 0: instead of new content, the instance is reloaded from strings it handed out itself
 	// (keys from Item / values from Get), leaving out every FromSelf-th entry
 	FromSelf int `json:"from_self,omitempty"`
+	// SelfCross (with FromSelf, Str2Str only): the new KEYS are the strings Get returned (views of the value
+	// storage) and the values are new short strings, so that the two halves of the map are crossed
+	SelfCross bool `json:"self_cross,omitempty"`
+	// HugeKeyAt > 0: a failing load - a key of HugeKeyLen (> MaxUint32) bytes is inserted at position
+	// HugeKeyAt-1 (or at the end) of the keys; its bytes live in a never-touched mapping
+	HugeKeyAt  int   `json:"huge_key_at,omitempty"`
+	HugeKeyLen int64 `json:"huge_key_len,omitempty"`
 }
 
 func (l SMLoad) keys() []string {
@@ -123,7 +131,9 @@ type smInstance struct {
 	items  func() (map[string]int, int, error) // nil if unsupported
 	// selfReload reloads the instance from strings the instance itself handed out (keys from Item, values
 	// from Get), leaving out every drop-th entry; it returns copies (made before the load) of the keys kept
-	selfReload func(drop int, modelKeys []string) (kept []string, err error)
+	// With cross (Str2Str only) the values returned by Get become the keys; vals then holds the model indices
+	// of the new values (nil = every kept key keeps its value).
+	selfReload func(drop int, modelKeys []string, cross bool) (kept []string, vals []int, err error)
 }
 
 // sharedBacking is one string of which many values are prefixes: such values share their start address
@@ -201,7 +211,7 @@ func genericInstance[V comparable](enc func(int) V, dec func(V) int) *smInstance
 			}
 			return out, n, nil
 		},
-		selfReload: func(drop int, _ []string) ([]string, error) {
+		selfReload: func(drop int, _ []string, _ bool) ([]string, []int, error) {
 			var rk, kept []string
 			var rv []V
 			for i, n := 0, m.Len(); i < n; i++ {
@@ -212,7 +222,7 @@ func genericInstance[V comparable](enc func(int) V, dec func(V) int) *smInstance
 				rk, rv = append(rk, k), append(rv, v)
 				kept = append(kept, string([]byte(k)))
 			}
-			return kept, m.LoadFromSlice(rk, rv)
+			return kept, nil, m.LoadFromSlice(rk, rv)
 		},
 	}
 }
@@ -327,20 +337,34 @@ func newInstance(vtype int) *smInstance {
 				return int(evid.Hash64([]byte(s)) & 0x3fffffff), true
 			},
 			length: m.Len,
-			selfReload: func(drop int, modelKeys []string) ([]string, error) {
+			selfReload: func(drop int, modelKeys []string, cross bool) ([]string, []int, error) {
 				var rk, rv, kept []string
+				var nvals []int
+				seen := map[string]bool{}
 				for i, k := range modelKeys {
 					if drop > 0 && i%drop == 0 {
 						continue
 					}
 					v, ok := m.Get(k) // v is a view of the map's own value storage
 					if !ok {
-						return nil, fmt.Errorf("Get(%q) absent before the self reload", k)
+						return nil, nil, fmt.Errorf("Get(%q) absent before the self reload", k)
+					}
+					if cross {
+						// the handed-out value becomes a key; the new values are short and fresh
+						if seen[v] {
+							continue
+						}
+						cp := string([]byte(v))
+						seen[cp] = true
+						j := 35*(i+1) + 1 // strVal(j) = "v<j>"
+						rk, rv = append(rk, v), append(rv, strVal(j))
+						kept, nvals = append(kept, cp), append(nvals, j)
+						continue
 					}
 					rk, rv = append(rk, k), append(rv, v)
 					kept = append(kept, k)
 				}
-				return kept, m.LoadFromSlice(rk, rv)
+				return kept, nvals, m.LoadFromSlice(rk, rv)
 			},
 		}
 	}
@@ -369,7 +393,7 @@ func checkStrMap(c StrMapCase, cv *cov) (v *evid.Violation) {
 	if reps <= 0 {
 		reps = 4
 	}
-	var sawReload, sawPrefix, sawEmptyState, sawFailedLoad, sawSelf bool
+	var sawReload, sawPrefix, sawEmptyState, sawFailedLoad, sawSelf, sawCross, sawHugeKey bool
 	totalKeys := 0
 	body := func() {
 		for rep := 0; rep < reps; rep++ {
@@ -462,7 +486,7 @@ func checkStrMap(c StrMapCase, cv *cov) (v *evid.Violation) {
 						mk = append(mk, k)
 					}
 					sort.Strings(mk)
-					kept, err := inst.selfReload(ld.FromSelf, mk)
+					kept, nvals, err := inst.selfReload(ld.FromSelf, mk, ld.SelfCross)
 					if err != nil {
 						v = evid.Failf("load %d (instance %d): reloading from %d of the instance's own entries failed: %v", li, rep, len(kept), err)
 						return
@@ -473,12 +497,21 @@ func checkStrMap(c StrMapCase, cv *cov) (v *evid.Violation) {
 					}
 					prevKeys = prev
 					nm := make(map[string]int, len(kept))
-					for _, k := range kept {
-						nm[k] = model[k]
+					for i, k := range kept {
+						if nvals != nil {
+							nm[k] = nvals[i]
+						} else {
+							nm[k] = model[k]
+						}
 					}
 					model = nm
 					sawReload, sawSelf = true, true
-					probeAll(fmt.Sprintf("after load %d, which reloaded the instance from %d of its own entries (keys returned by Item / values returned by Get), leaving out every %d-th", li, len(kept), ld.FromSelf), mkProbes(kept))
+					how := "keys returned by Item / values returned by Get"
+					if nvals != nil {
+						sawCross = true
+						how = "the strings returned by Get as the new keys, with new short values"
+					}
+					probeAll(fmt.Sprintf("after load %d, which reloaded the instance from %d of its own entries (%s), leaving out every %d-th", li, len(kept), how, ld.FromSelf), mkProbes(kept))
 					if v != nil {
 						return
 					}
@@ -488,6 +521,33 @@ func checkStrMap(c StrMapCase, cv *cov) (v *evid.Violation) {
 				vals := make([]int, len(keys))
 				for i := range keys {
 					vals[i] = i*3 + ld.ValSalt + li*1000003 + 1
+				}
+				if ld.HugeKeyAt > 0 && !ld.Mismatch {
+					// a failing load: one key is longer than MaxUint32 bytes (never touched: the length check
+					// is all the library may do with it)
+					hm := hugeMapping()
+					if hm == nil || ld.HugeKeyLen <= math.MaxUint32 || ld.HugeKeyLen > int64(len(hm)) {
+						cv.label("huge_key_unavailable")
+						continue
+					}
+					hk := unsafe.String(&hm[0], int(ld.HugeKeyLen))
+					at := ld.HugeKeyAt - 1
+					if at > len(keys) {
+						at = len(keys)
+					}
+					k2 := append(append(append([]string{}, keys[:at]...), hk), keys[at:]...)
+					v2 := append(append([]int{}, vals...), 424242)
+					err := inst.load(k2, v2, false, false)
+					if err == nil {
+						v = evid.Failf("load %d (instance %d): LoadFromSlice with a key of %d bytes (more than MaxUint32) at position %d of %d returned nil", li, rep, ld.HugeKeyLen, at, len(k2))
+						return
+					}
+					sawFailedLoad, sawHugeKey = true, true
+					probeAll(fmt.Sprintf("after failed load %d (a key of %d bytes at position %d of %d keys: %v)", li, ld.HugeKeyLen, at, len(k2), err), mkProbes(keys))
+					if v != nil {
+						return
+					}
+					continue
 				}
 				if ld.Mismatch {
 					err := inst.load(keys, vals, false, true)
@@ -565,6 +625,8 @@ func checkStrMap(c StrMapCase, cv *cov) (v *evid.Violation) {
 	cv.labelIf(sawPrefix, "prefix_related_keys")
 	cv.labelIf(sawEmptyState, "empty_or_never_loaded")
 	cv.labelIf(sawFailedLoad, "failed_load")
+	cv.labelIf(sawCross, "self_reload_values_as_keys")
+	cv.labelIf(sawHugeKey, "failed_load_key_over_4GiB")
 	cv.labelIf(totalKeys > 1000, "bulk>1000")
 	cv.labelIf(totalKeys/reps <= 8 && totalKeys > 0, "tiny_table")
 	cv.label(fmt.Sprintf("vtype_%d", c.VType))
@@ -666,6 +728,11 @@ func genStrMapCase(t *rapid.T) StrMapCase {
 		}
 		if i > 0 && !ld.Mismatch && rapid.IntRange(0, 3).Draw(t, "fromSelf") == 0 {
 			ld.FromSelf = rapid.SampledFrom([]int{2, 3, 5, 1000000}).Draw(t, "selfDrop")
+			ld.SelfCross = rapid.Bool().Draw(t, "selfCross")
+		}
+		if i > 0 && !ld.Mismatch && ld.FromSelf == 0 && rapid.IntRange(0, 7).Draw(t, "hugeKey") == 0 {
+			ld.HugeKeyAt = rapid.SampledFrom([]int{1, 1, 2, 3, 1000000}).Draw(t, "hugeAt")
+			ld.HugeKeyLen = rapid.SampledFrom([]int64{1 << 32, 1<<32 + 1, 1<<32 + 65535}).Draw(t, "hugeLen")
 		}
 		nf := rapid.SampledFrom([]int{0, 1, 1, 2, 3}).Draw(t, "nfam")
 		for j := 0; j < nf; j++ {
@@ -681,7 +748,7 @@ func genStrMapCase(t *rapid.T) StrMapCase {
 }
 
 func TestC07_Random(t *testing.T) {
-	rec := evid.New("C07", "c07_random", "rapid: load histories of 0..6 loads (from map / from slices, growing and shrinking, zero keys, failing loads with mismatched slice lengths, reloads from the instance's own entries - keys returned by Item, values returned by Get - leaving some out) on StrMap[V] for V in {int, a 16-byte struct, bool, int32, struct{}, a 9-byte struct, [3]byte} (value types without pointers, as the package documentation requires), Str2Str and strstore; key sets are unions of families (empty key, prefix chains, one stem with all 1-byte extensions, keys differing in first/last byte, embedded NUL/0xff, lengths 0..300 and 5000, counter keys up to 2000, raw bytes); probes = every loaded key, keys of the previous load, each key truncated/extended/flipped, concatenations, raw bytes; every case on 4 fresh instances (fresh hash seeds); oracle = Go map; non-trivial = >= 2 loads, prefix-related keys, or the never-loaded/empty state")
+	rec := evid.New("C07", "c07_random", "rapid: load histories of 0..6 loads (from map / from slices, growing and shrinking, zero keys, failing loads with mismatched slice lengths or with one key of 4 GiB .. 4 GiB + 65535 bytes (longer than MaxUint32; its bytes are a never-touched mapping) at the first, second, third or last position, reloads from the instance's own entries - keys returned by Item, values returned by Get, or for Str2Str the strings returned by Get used as the new keys - leaving some out) on StrMap[V] for V in {int, a 16-byte struct, bool, int32, struct{}, a 9-byte struct, [3]byte} (value types without pointers, as the package documentation requires), Str2Str and strstore; key sets are unions of families (empty key, prefix chains, one stem with all 1-byte extensions, keys differing in first/last byte, embedded NUL/0xff, lengths 0..300 and 5000, counter keys up to 2000, raw bytes); probes = every loaded key, keys of the previous load, each key truncated/extended/flipped, concatenations, raw bytes; every case on 4 fresh instances (fresh hash seeds); oracle = Go map; non-trivial = >= 2 loads, prefix-related keys, or the never-loaded/empty state")
 	defer rec.Flush()
 	rec.Assume("hash/maphash seeds are chosen by the runtime per instance and are not injectable; each case runs on 4 fresh instances")
 	runRapid(t, rec, "c07_strmap", evid.Pick(6000, 40000), genStrMapCase, checkStrMap)
